@@ -268,3 +268,321 @@ theorem fastQuote_quoteScan {w : Bytes} {fuel j j' : Nat} {c' : UInt8} (h : fast
   congr 1; omega
 
 end Jomini.TextReader
+
+namespace Jomini.TextReader
+open Jomini Jomini.TextReader.Spec Jomini.TextReader.Swar
+
+/-! ### no raw read leaves the window -/
+
+theorem fastUnqGroup_no_ub (w : Bytes) : ∀ (n j : Nat), j + n ≤ w.length → fastUnqGroup w n j ≠ .ub := by
+  intro n
+  induction n with
+  | zero => intro j _; simp [fastUnqGroup]
+  | succ n ih =>
+    intro j h
+    rw [fastUnqGroup]
+    have hj : j < w.length := by omega
+    rw [List.getElem?_eq_getElem hj]
+    simp only
+    split
+    · simp
+    · exact ih (j + 1) (by omega)
+
+theorem fastUnq_no_ub (w : Bytes) : ∀ (fuel j : Nat), fastUnq w fuel j ≠ .ub := by
+  intro fuel
+  induction fuel with
+  | zero => intro j; simp [fastUnq]
+  | succ f ih =>
+    intro j
+    rw [fastUnq]
+    split
+    · rename_i hgt
+      have := fastUnqGroup_no_ub w 8 j (by omega)
+      cases hg : fastUnqGroup w 8 j with
+      | hit a b => simp
+      | cont a => simp only; exact ih a
+      | ub => exact absurd hg this
+    · simp
+
+theorem read64_isSome {w : Bytes} {j : Nat} (h : w.length - j > 8) : ∃ data, read64 w j = some data := by
+  have : (read64 w j).isSome = true := by unfold read64; rw [word8_isSome_iff]; simp; omega
+  cases hr : read64 w j with
+  | none => rw [hr] at this; simp at this
+  | some d => exact ⟨d, rfl⟩
+
+theorem fastQuote_no_ub (w : Bytes) : ∀ (fuel j : Nat) (esc : Bool), fastQuote w fuel j esc ≠ .ub := by
+  intro fuel
+  induction fuel with
+  | zero => intro j esc; simp [fastQuote]
+  | succ f ih =>
+    intro j esc
+    rw [fastQuote]
+    split
+    · rename_i hgt
+      obtain ⟨data, hr⟩ := read64_isSome hgt
+      rw [hr]
+      simp only
+      split
+      · split <;> simp
+      · exact ih _ _
+    · simp
+
+/-! ### byte classes -/
+
+theorem beq_false_of_toNat {c k : UInt8} (h : c.toNat ≠ k.toNat) : (c == k) = false := by
+  cases hh : c == k with
+  | false => rfl
+  | true =>
+    have : c = k := by simpa using hh
+    subst this; exact absurd rfl h
+
+theorem fastStart_nat (c : UInt8) (h : isFastStart c = true) :
+    (97 ≤ c.toNat ∧ c.toNat ≤ 122) ∨ (48 ≤ c.toNat ∧ c.toNat ≤ 57) ∨ (65 ≤ c.toNat ∧ c.toNat ≤ 90) ∨ c.toNat = 45 := by
+  unfold isFastStart at h
+  simp only [Bool.or_eq_true, Bool.and_eq_true, decide_eq_true_eq, UInt8.le_iff_toNat_le, beq_iff_eq] at h
+  rcases h with ((h | h) | h) | h
+  · left; exact ⟨h.1, h.2⟩
+  · right; left; exact ⟨h.1, h.2⟩
+  · right; right; left; exact ⟨h.1, h.2⟩
+  · right; right; right; rw [h]; rfl
+
+theorem fastStart_class : ∀ c : UInt8, isFastStart c = true →
+    isBlank c = false ∧ (c == 35) = false ∧ (c == 0xef) = false ∧ (c == 123) = false ∧ (c == 125) = false ∧
+    (c == 34) = false ∧ (c == 64) = false ∧ (c == 61) = false ∧ (c == 60) = false ∧ (c == 33) = false ∧
+    (c == 63) = false ∧ (c == 62) = false := by
+  intro c h
+  have hn := fastStart_nat c h
+  have ne : ∀ k : UInt8, c.toNat ≠ k.toNat → (c == k) = false := fun k hk => beq_false_of_toNat hk
+  have e32 := ne 32 (by show c.toNat ≠ 32; omega)
+  have e9 := ne 9 (by show c.toNat ≠ 9; omega)
+  have e10 := ne 10 (by show c.toNat ≠ 10; omega)
+  have e13 := ne 13 (by show c.toNat ≠ 13; omega)
+  have e59 := ne 59 (by show c.toNat ≠ 59; omega)
+  refine ⟨by simp [isBlank, e32, e9, e10, e13, e59], ne 35 (by show c.toNat ≠ 35; omega), ne 0xef (by show c.toNat ≠ 239; omega),
+    ne 123 (by show c.toNat ≠ 123; omega), ne 125 (by show c.toNat ≠ 125; omega), ne 34 (by show c.toNat ≠ 34; omega),
+    ne 64 (by show c.toNat ≠ 64; omega), ne 61 (by show c.toNat ≠ 61; omega), ne 60 (by show c.toNat ≠ 60; omega),
+    ne 33 (by show c.toNat ≠ 33; omega), ne 63 (by show c.toNat ≠ 63; omega), ne 62 (by show c.toNat ≠ 62; omega)⟩
+
+theorem tokenAt_fastStart {c : UInt8} (h : isFastStart c = true) (rest : Bytes) (i : Nat) :
+    tokenAt c rest i = unqTok c rest i := by
+  obtain ⟨_, _, _, h1, h2, h3, h4, h5, h6, h7, h8, h9⟩ := fastStart_class c h
+  simp [tokenAt, h1, h2, h3, h4, h5, h6, h7, h8, h9]
+
+theorem tabNl_blank (x : UInt8) (h : isTabNl x = true) : isBlank x = true := by
+  unfold isTabNl at h; unfold isBlank
+  simp only [Bool.or_eq_true, beq_iff_eq] at h ⊢
+  rcases h with h | h <;> simp [h]
+
+theorem Skips_blanks (pos0 : Bool) (pre : Bytes) (h : ∀ x ∈ pre, isBlank x = true) (i : Nat) (bom : Bom) :
+    Skips pos0 pre i bom bom := by
+  induction pre generalizing i with
+  | nil => exact .nil _ _
+  | cons x pre ih => exact .blank (h x (by simp)) (ih (fun y hy => h y (by simp [hy])) _)
+
+/-- the scan of a window that starts with `p` tabs/newlines followed by a byte `c` that starts a token -/
+theorem fbLoop_after_ws {pos0 : Bool} {w : Bytes} {p : Nat} {c : UInt8} {bom : Bom}
+    (hpre : ∀ x ∈ w.take p, isBlank x = true) (hc : w[p]? = some c)
+    (hb : isBlank c = false) (h35 : (c == 35) = false) (hef : (c == 0xef) = false) :
+    fbLoop pos0 w .top 0 bom = (bom, tokenAt c (w.drop (p + 1)) p) := by
+  have hw : w = w.take p ++ (c :: w.drop (p + 1)) := by
+    rw [← drop_of_getElem? hc]; simp
+  have hlen : (w.take p).length = p := by
+    have : p < w.length := by
+      rcases Nat.lt_or_ge p w.length with h1 | h1
+      · exact h1
+      · rw [List.getElem?_eq_none h1] at hc; simp at hc
+    simp; omega
+  conv => lhs; rw [hw]
+  rw [(Skips_blanks pos0 _ hpre 0 bom).fbLoop, hlen, Nat.zero_add]
+  rw [fbLoop_token hb h35 (by simp [BomCheck, hef])]
+  simp [bomAfter, hef]
+
+end Jomini.TextReader
+
+namespace Jomini.TextReader
+open Jomini Jomini.TextReader.Spec Jomini.TextReader.Swar
+
+/-- the body of `next_opt` once the word has been read, `p` blanks skipped and the byte `c = w[p]` fetched -/
+def nextOptAt (fuel : Nat) (r : Reader) (p : Nat) (c : UInt8) : Res (Option Token) :=
+  let w := r.win
+  if c == 123 then
+    match advance r (p + 1) with
+    | some r' => .ok r' (some .open_)
+    | none => .panic
+  else if c == 125 then
+    match advance r (p + 1) with
+    | some r' => .ok r' (some .close)
+    | none => .panic
+  else if isFastStart c then
+    match fastUnq w w.length (p + 1) with
+    | .hit j c' =>
+      match advance r (if c' == 32 then j + 1 else j) with
+      | some r' => .ok r' (some (.unquoted ((w.drop p).take (j - p))))
+      | none => .panic
+    | .miss => nextOptFallback fuel r
+    | .ub => .ub
+  else if c == 34 then
+    match fastQuote w w.length (p + 1) false with
+    | .hit j _ =>
+      match advance r (j + 1) with
+      | some r' => .ok r' (some (.quoted ((w.drop (p + 1)).take (j - (p + 1)))))
+      | none => .panic
+    | .miss => nextOptFallback fuel r
+    | .ub => .ub
+  else nextOptFallback fuel r
+
+theorem nextOpt_eq (fuel : Nat) (r : Reader) :
+    nextOpt fuel r =
+      if r.win.length < 9 then nextOptFallback fuel r
+      else
+        match read64 r.win 0 with
+        | none => .ub
+        | some data =>
+          match r.win[leadingWhitespace data]? with
+          | none => .ub
+          | some c => nextOptAt fuel r (leadingWhitespace data) c := by
+  unfold nextOpt nextOptAt
+  rfl
+
+/-- the conclusion of `nextOpt_vs_scan` for a result `res` -/
+def FastOk (fuel : Nat) (r : Reader) (res : Res (Option Token)) : Prop :=
+  res = nextOptFallback fuel r ∨
+  ∃ adv t r', fbLoop (r.position == 0) r.win .top 0 r.bom = (r.bom, .tok adv t) ∧
+    res = .ok r' (some t) ∧
+    (advance r adv = some r' ∨ (r.win[adv]? = some 32 ∧ advance r (adv + 1) = some r'))
+
+theorem advance_some (r : Reader) (k : Nat) (hk : k ≤ r.win.length) : ∃ r', advance r k = some r' :=
+  ⟨{ r with win := r.win.drop k, consumed := r.consumed + k }, by simp [TextReader.advance, hk]⟩
+
+theorem getElem?_lt {w : Bytes} {j : Nat} {c : UInt8} (h : w[j]? = some c) : j < w.length := by
+  rcases Nat.lt_or_ge j w.length with h1 | h1
+  · exact h1
+  · rw [List.getElem?_eq_none h1] at h; simp at h
+
+theorem fast_brace (fuel : Nat) (r : Reader) (p : Nat) (c : UInt8) (t : Token)
+    (hpre : ∀ x ∈ r.win.take p, isBlank x = true) (hget : r.win[p]? = some c)
+    (hc : (c = 123 ∧ t = .open_) ∨ (c = 125 ∧ t = .close)) :
+    FastOk fuel r (match advance r (p + 1) with | some r' => .ok r' (some t) | none => .panic) := by
+  have hpl := getElem?_lt hget
+  obtain ⟨r', ha⟩ := advance_some r (p + 1) (by omega)
+  right
+  refine ⟨p + 1, t, r', ?_, by rw [ha], Or.inl ha⟩
+  rcases hc with ⟨rfl, rfl⟩ | ⟨rfl, rfl⟩
+  · rw [fbLoop_after_ws hpre hget (by decide) (by decide) (by decide)]; simp [tokenAt]
+  · rw [fbLoop_after_ws hpre hget (by decide) (by decide) (by decide)]; simp [tokenAt]
+
+theorem fast_unq (fuel : Nat) (r : Reader) (p : Nat) (c : UInt8)
+    (hpre : ∀ x ∈ r.win.take p, isBlank x = true) (hget : r.win[p]? = some c) (hfs : isFastStart c = true) :
+    FastOk fuel r
+      (match fastUnq r.win r.win.length (p + 1) with
+       | .hit j c' =>
+         match advance r (if c' == 32 then j + 1 else j) with
+         | some r' => .ok r' (some (.unquoted ((r.win.drop p).take (j - p))))
+         | none => .panic
+       | .miss => nextOptFallback fuel r
+       | .ub => .ub) := by
+  obtain ⟨hb, h35, hef, _⟩ := fastStart_class c hfs
+  cases hfu : fastUnq r.win r.win.length (p + 1) with
+  | miss => left; rfl
+  | ub => exact absurd hfu (fastUnq_no_ub _ _ _)
+  | hit j c' =>
+    simp only
+    obtain ⟨hfi, hjle, hgj⟩ := fastUnq_findIdx hfu
+    have hjl := getElem?_lt hgj
+    have hscan : fbLoop (r.position == 0) r.win .top 0 r.bom =
+        (r.bom, .tok j (.unquoted ((r.win.drop p).take (j - p)))) := by
+      rw [fbLoop_after_ws hpre hget hb h35 hef, tokenAt_fastStart hfs]
+      unfold unqTok
+      rw [hfi]
+      simp only [Prod.mk.injEq, Scan.tok.injEq, Token.unquoted.injEq, true_and]
+      refine ⟨by omega, ?_⟩
+      rw [drop_of_getElem? hget]
+      congr 1; omega
+    right
+    by_cases h32 : (c' == 32) = true
+    · obtain ⟨r', ha⟩ := advance_some r (j + 1) (by omega)
+      have hc32 : c' = 32 := by simpa using h32
+      exact ⟨j, _, r', hscan, by simp only [h32, if_true, ha], Or.inr ⟨by rw [hgj, hc32], ha⟩⟩
+    · obtain ⟨r', ha⟩ := advance_some r j (by omega)
+      have h32' : (c' == 32) = false := by simpa using h32
+      exact ⟨j, _, r', hscan, by simp only [h32', Bool.false_eq_true, if_false, ha], Or.inl ha⟩
+
+theorem fast_quote (fuel : Nat) (r : Reader) (p : Nat)
+    (hpre : ∀ x ∈ r.win.take p, isBlank x = true) (hget : r.win[p]? = some 34) :
+    FastOk fuel r
+      (match fastQuote r.win r.win.length (p + 1) false with
+       | .hit j _ =>
+         match advance r (j + 1) with
+         | some r' => .ok r' (some (.quoted ((r.win.drop (p + 1)).take (j - (p + 1)))))
+         | none => .panic
+       | .miss => nextOptFallback fuel r
+       | .ub => .ub) := by
+  cases hfq : fastQuote r.win r.win.length (p + 1) false with
+  | miss => left; rfl
+  | ub => exact absurd hfq (fastQuote_no_ub _ _ _ _)
+  | hit j c' =>
+    simp only
+    obtain ⟨_, _, hgj⟩ := fastQuote_spec _ _ _ _ _ _ hfq
+    obtain ⟨hqs, hjle⟩ := fastQuote_quoteScan hfq
+    have hjl := getElem?_lt hgj
+    obtain ⟨r', ha⟩ := advance_some r (j + 1) (by omega)
+    right
+    refine ⟨j + 1, .quoted ((r.win.drop (p + 1)).take (j - (p + 1))), r', ?_, by simp only [ha], Or.inl ha⟩
+    rw [fbLoop_after_ws hpre hget (by decide) (by decide) (by decide), tokenAt_quote]
+    unfold quoteTok
+    rw [hqs]
+    simp only [Prod.mk.injEq, Scan.tok.injEq, true_and]
+    constructor <;> first | omega | trivial | rfl
+
+theorem nextOptAt_ok (fuel : Nat) (r : Reader) (p : Nat) (c : UInt8)
+    (hpre : ∀ x ∈ r.win.take p, isBlank x = true) (hget : r.win[p]? = some c) :
+    FastOk fuel r (nextOptAt fuel r p c) := by
+  unfold nextOptAt
+  simp only
+  split
+  · rename_i h; exact fast_brace fuel r p c .open_ hpre hget (Or.inl ⟨by simpa using h, rfl⟩)
+  · split
+    · rename_i _ h; exact fast_brace fuel r p c .close hpre hget (Or.inr ⟨by simpa using h, rfl⟩)
+    · split
+      · rename_i _ _ h; exact fast_unq fuel r p c hpre hget h
+      · split
+        · rename_i _ _ _ h
+          have : c = 34 := by simpa using h
+          subst this
+          exact fast_quote fuel r p hpre hget
+        · left; rfl
+
+/-- **the fast path of `next_opt` is the fallback scan of the same window.**  Either `next_opt` defers to
+`next_opt_fallback`, or it returns a token directly — and then the fallback's scan of the same window decides the very
+same token with advance `adv`, the BOM state is untouched, and the fast path has advanced the buffer by `adv`, or by
+`adv + 1` when the byte after an unquoted scalar is a space (the "advance one on space" quirk). -/
+theorem nextOpt_vs_scan (fuel : Nat) (r : Reader) : FastOk fuel r (nextOpt fuel r) := by
+  rw [nextOpt_eq]
+  split
+  · left; rfl
+  · rename_i hlen
+    have hlen : 9 ≤ r.win.length := by omega
+    obtain ⟨data, hr⟩ := read64_isSome (w := r.win) (j := 0) (by omega)
+    rw [hr]
+    simp only
+    obtain ⟨b0, b1, b2, b3, b4, b5, b6, b7, rfl, hw⟩ := read64_chunk hr
+    simp only [List.drop_zero, Nat.zero_add] at hw
+    generalize hp : leadingWhitespace (le64 b0 b1 b2 b3 b4 b5 b6 b7) = p
+    have hp8 : p ≤ 8 := by rw [← hp]; exact leadingWhitespace_le _
+    have hpl : p < r.win.length := by omega
+    have hpre : ∀ x ∈ r.win.take p, isBlank x = true := by
+      intro x hx
+      have hspec := leadingWhitespace_spec b0 b1 b2 b3 b4 b5 b6 b7
+      rw [hp] at hspec
+      have htk : r.win.take p = ([b0, b1, b2, b3, b4, b5, b6, b7].takeWhile isTabNl) := by
+        rw [hw, List.take_append_of_le_length (by simp; omega)]
+        have := List.takeWhile_append_dropWhile (p := isTabNl) (l := [b0, b1, b2, b3, b4, b5, b6, b7])
+        conv => lhs; rw [← this]
+        rw [List.take_append_of_le_length (by omega), List.take_of_length_le (by omega)]
+      rw [htk] at hx
+      exact tabNl_blank x (takeWhile_mem_imp _ _ x hx).1
+    cases hg : r.win[p]? with
+    | none => rw [List.getElem?_eq_getElem hpl] at hg; simp at hg
+    | some c => simp only; exact nextOptAt_ok fuel r p c hpre hg
+
+end Jomini.TextReader
